@@ -7,6 +7,7 @@ import shapely
 
 from harness import util
 from harness.gen import datasets as G
+from harness.gen import c04_extra as X
 from harness.gen import geomspec as S
 from harness.props.c01 import native_str
 
@@ -19,7 +20,13 @@ REQUIRED = ['Ems.C04.lookup_none_iff', 'Ems.C04.lookup_least', 'Ems.C04.lookup_c
             'Ems.C04.cf1d_lookup_spec', 'Ems.C04.cf1d_lookup_none_iff']
 RULE = ('datasets of every convention with holes, sheared lattices, concave / collinear UGRID faces; points of the '
         'classes: cell interiors, midpoints of (shared) edges, (shared) vertices, hole interiors, just outside the '
-        'hull (half a lattice unit), far outside. All points have dyadic coordinates, so GEOS predicates are exact. '
+        'hull (half a lattice unit), far outside. Walked per convention (not drawn): overlapping cells (CF 1-D bounds '
+        "wider than the spacing, 'gaps' bounds, UGRID with one face repeated half a diagonal away, copy at a random "
+        'position of the face list) with the points that lie ON the boundary of one cell and strictly INSIDE another; '
+        'the place on the globe (dataset translated in longitude: reaching beyond 180 E in the 0..360 spelling, wholly '
+        'beyond it, around / beyond 180 W) with other spellings of a cell point (x + 360, x - 360, mirrored longitude, '
+        'latitude and longitude exchanged), which hit a cell only if a cell polygon really contains them. '
+        'All points have dyadic coordinates, so GEOS predicates are exact. '
         'Compared with the model: get_index_for_point (linear index, native index, polygon ring) where the model uses '
         'its own exact point-in-polygon test, and the sorted STRtree hit list vs the exact hit set. Oracle: brute '
         'force over all cells with poly.intersects(pt), minimum index; select_point raises iff no hit. '
@@ -80,7 +87,15 @@ def examine(ctx, recipe, items) -> None:
     rings = S.rings_str(kept)
     spec = built.grids_spec()
     tree = c.strtree
-    for (x, y, cls) in points_for(rng, kept, raw):
+    if recipe.get('placed'):
+        xs = [p[0] for q in kept if q for p in q]
+        ctx.count('placed:' + ('none' if not xs else 'reaches-beyond-180E' if max(xs) > 180 else
+                               'reaches-beyond-180W' if min(xs) < -180 else 'elsewhere'))
+    if recipe.get('bounds') in ('overlap', 'gaps') or recipe.get('overlap_face'):
+        ctx.count(f"cells:{recipe.get('bounds', 'overlap-face')}")
+    base = points_for(rng, kept, raw)
+    # + points on the boundary of one cell and inside another (overlapping cells), + other spellings of cell points
+    for (x, y, cls) in base + X.touch_inside_points(rng, kept) + X.alias_points(base):
         x, y = Fraction(x), Fraction(y)
         # dyadic guard: only exactly representable points
         if Fraction(float(x)) != x or Fraction(float(y)) != y:
@@ -175,7 +190,24 @@ def make_recipe(ctx, k):
     kw = {'max_w': 3, 'max_h': 2, 'coords_as': 'vars'} if conv == 'ugrid' else {'max_n': 4}
     if conv in ('cf2d', 'shoc_simple'):
         kw['twist'] = True
-    return G.random_recipe(rng, conv, ctx.tier, **kw)
+    r = G.random_recipe(rng, conv, ctx.tier, **kw)
+    # Walked by the running number of the recipe within its convention (not drawn), so that every class turns up
+    # in every run:
+    #   overlapping cells   — odd rounds: CF 1-D bounds wider than the spacing (every fourth round: or narrower,
+    #                         'gaps'), UGRID with one face repeated half a diagonal away;
+    #   place on the globe  — rounds 1, 2 of every four: translated in longitude (beyond 180 E in the 0..360
+    #                         spelling / anywhere incl. around 180 W), otherwise where the generator put it (near 0).
+    rnd = k // len(G.CONVS)
+    if rnd % 2 == 1:
+        if conv == 'cf1d':
+            r['bounds'] = 'overlap' if rnd % 4 == 1 else rng.choice(['overlap', 'gaps'])
+        elif conv == 'ugrid':
+            r = X.add_overlap_face(rng, r)
+    if rnd % 4 == 1:
+        r = X.place(r, rng.choice(X.EAST))
+    elif rnd % 4 == 2:
+        r = X.place(r, rng.choice(X.ANYWHERE))
+    return r
 
 
 def run(ctx) -> None:
